@@ -630,7 +630,7 @@ class _SetOperation(Selectable, Term):  # type:ignore[misc]
                 self._operand_ctx(set_operation_query, set_ctx)
             )
 
-            if len(self.base_query._selects) != len(set_operation_query._selects):
+            if self._width(self.base_query) != self._width(set_operation_query):
                 raise SetOperationException(
                     "Queries must have an equal number of select statements in a set operation."
                     "\n\nMain Query:\n{query1}\n\nSet Operations Query:\n{query2}".format(
@@ -658,6 +658,13 @@ class _SetOperation(Selectable, Term):  # type:ignore[misc]
             return format_alias_sql(querystring, self.alias, ctx)
 
         return querystring
+
+    @staticmethod
+    def _width(operand: Any) -> int:
+        # an operand may itself be a set operation: its width is that of its first operand
+        while isinstance(operand, _SetOperation):
+            operand = operand.base_query
+        return len(operand._selects)
 
     @staticmethod
     def _operand_ctx(operand: Any, set_ctx: SqlContext) -> SqlContext:
